@@ -5,8 +5,14 @@ patch.diff (skip if it no longer applies to today's tree), require that it
 builds, run the property's check and compare with meta.json's `detected`."""
 import json, os, glob, shutil, subprocess, tempfile, sys
 ENV = dict(os.environ, GOFLAGS="-mod=mod", GOPROXY="off", GOSUMDB="off", GOTOOLCHAIN="local"); ENV.pop("GOWORK", None)
+from concurrent.futures import ThreadPoolExecutor
+# usage: recheck_seeds.py [-j N] [substring ...]   (only seeds whose id contains one of the substrings)
+args = sys.argv[1:]
+PAR = 6
+if args[:1] == ['-j']:
+    PAR = int(args[1]); args = args[2:]
 res = {}
-for d in sorted(glob.glob('/verif/seeded/*')):
+def one(d):
     m = json.load(open(d + '/meta.json'))
     tmp = tempfile.mkdtemp(prefix='seedre-')
     try:
@@ -15,16 +21,20 @@ for d in sorted(glob.glob('/verif/seeded/*')):
         os.makedirs(tmp + '/verif'); shutil.copy('/verif/known_findings.json', tmp + '/verif/')
         a = subprocess.run(['patch', '-p1', '-s', '--no-backup-if-mismatch', '-i', d + '/patch.diff'], cwd=repo, capture_output=True, text=True)
         if a.returncode != 0:
-            res[os.path.basename(d)] = 'stale-patch'; continue
+            res[os.path.basename(d)] = 'stale-patch'; return
         b = subprocess.run(['go', 'build', './...'], cwd=repo, env=ENV, capture_output=True, text=True)
         if b.returncode != 0:
-            res[os.path.basename(d)] = 'no-compile'; continue
+            res[os.path.basename(d)] = 'no-compile'; return
         c = subprocess.run(['/verif/bin/xmppcheck', '-property', m['property'], '-repo', repo, '-verif', tmp + '/verif'], capture_output=True, text=True, env=ENV)
         want = m.get('confirmed', {}).get('detected', True)
         got = c.returncode != 0
         res[os.path.basename(d)] = 'caught' if got else ('MISSED' if want else 'undetected (as recorded)')
     finally:
         shutil.rmtree(tmp, ignore_errors=True)
+dirs = [d for d in sorted(glob.glob('/verif/seeded/*')) if not args or any(a in os.path.basename(d) for a in args)]
+with ThreadPoolExecutor(PAR) as ex:
+    list(ex.map(one, dirs))
+res = dict(sorted(res.items()))
 from collections import Counter
 for k, v in res.items():
     if v not in ('caught',):
